@@ -131,6 +131,11 @@ def check_bound(run, db, fns=None, rule='R-BOUND', end_pred=None, site_fn=None):
                     # evaluate the arguments as they were substituted when the call was summarised: use canonical call string
                     comps.append(('assume', c))
                 # unsigned subtractions inside a guard that talks about the advance: B <= A must have been established
+                def has_uns_sub(x):
+                    return any(isinstance(y, dict) and y.get('k') == 'bin' and y.get('op') == '-' and y.get('uns') for y in subterms(x))
+                # only comparisons that are themselves free of unsigned subtractions can establish anything
+                safe = [linear.compare(ct, tk, {}) for ct, tk in s.cond_terms if not has_uns_sub(ct)]
+                safe = [c for c in safe if c]
                 for ct, tk in s.cond_terms:
                     c0 = linear.compare(ct, tk, {})
                     if not c0 or not (set(c0[0]) & set(delta)):
@@ -141,7 +146,9 @@ def check_bound(run, db, fns=None, rule='R-BOUND', end_pred=None, site_fn=None):
                             if not [a for a in lb if a]:
                                 continue
                             need = linear.sub(lb, la)
-                            if not any(c[0] != 'assume' and c[0] == need for c in comps):
+                            # established by a path condition d <= 0 with need = d - (non-negative terms): sizes, offsets and
+                            # addresses are all non-negative quantities
+                            if not any(all(v <= 0 for v in linear.sub(need, c[0]).values()) for c in safe):
                                 problems.append('the guard subtracts in unsigned arithmetic (`%s`) without having established that the subtrahend does not '
                                                 'exceed the minuend: the difference wraps around and the guard lets any size through' % tstr(st)[:90])
                 found = None
